@@ -195,7 +195,8 @@ pub fn gen(r: &mut Rng, _tier: &str, _i: usize, stats: &mut BTreeMap<String, u64
         }
         4 => {
             let p = *r.pick(&pos);
-            damaged.insert(p, *r.pick(&['#', '$', '@', '?', '`', '\\', ';', '"']));
+            // also blanks other than the ASCII space: only ' ' separates tokens
+            damaged.insert(p, *r.pick(&['#', '$', '@', '?', '`', '\\', ';', '"', '\t', '\n', '\u{a0}', '\u{2003}', '\u{3000}', '\u{2028}']));
             kname = "illegal_char";
         }
         _ => {
